@@ -426,6 +426,7 @@ func runC10(p *core.Program, r *core.Report) {
 	// round 8: the imports a literal registered are the ones its text uses
 	chainRules(p, r, "R16", "C03", []string{"C03.R12"}, "the text of every registering call ends up in the literal")
 	c10R14(p, r, f, armOf)
+	c10R17(p, r, f, armOf)
 }
 
 // numClass: signed / unsigned / float class of a reflect kind name or a basic type.
